@@ -8,26 +8,27 @@ From FF Require Import Lib.Word Gen.Consts_device_acpi_aml Gen.Consts_aml_tree A
   Aml.ParserTotalFrame Aml.ParserTotalFirst Aml.ParserTotalConn Aml.ParserTotalNonNamed Aml.ParserTotalCalls Aml.ParserTotalReloc
   Aml.ParserTotalMerge Aml.ParserTotalResolve Aml.ParserTotalDefer Aml.ParserTotalDeferW Aml.ParserTotalDeferV
   Aml.ParserTotalTyped Aml.ParserTotalShape Aml.ParserTotalChain Aml.ParserTotalConn2 Aml.ParserTotalPass2
-  Aml.ParserTotalBenign Aml.ParserTotalFirst2 Aml.ParserTotalNameLex Aml.ParserTotalGoodPath.
+  Aml.ParserTotalBenign Aml.ParserTotalFirst2 Aml.ParserTotalNameLex Aml.ParserTotalGoodPath Aml.ParserTotalFreeName.
 Import ListNotations.
 Local Open Scope N_scope.
 
 (** the Scope-directive shape without the two facts about names (name of the directive has no lead character, four-byte
     paths start with a lead character, \ or ^) *)
-Definition sdirw (t : T) (g : ghost) (x : N) (xinfo : N) : Prop :=
+Definition sdirw (X : N -> Prop) (t : T) (g : ghost) (x : N) (xinfo : N) : Prop :=
   (forall op fl af, opInfo xinfo = Some (op, fl, af) -> hasFlag fl aml_pOpFlagNamed = false) /\
   exists n c no co tbl sl,
-    kids g x = [n; c] /\ kids g n = [] /\
+    kids g x = [n; c] /\ kids g n = [] /\ ~ X n /\
     tget t n = Some no /\ o_opcode no = aml_pOpIntNamePath /\
     o_value no = Some (VBytes tbl sl) /\
     tget t c = Some co /\ o_opcode co = aml_pOpIntScopeBlock.
 
-Definition tySw (s : pstate) (g : ghost) : Prop :=
+Definition tySw (X : N -> Prop) (s : pstate) (g : ghost) : Prop :=
   forall x xo, tget (p_tree s) x = Some xo -> o_opcode xo = aml_pOpScope -> o_tableHandle xo = p_handle s ->
-    name_lead (o_name xo) = false /\ sdirw (p_tree s) g x (o_infoIndex xo).
+    name_lead (o_name xo) = false /\ sdirw X (p_tree s) g x (o_infoIndex xo).
 
-Definition LI (s : pstate) (g : ghost) : Prop :=
-  glive g 0 /\ groot g 0 /\ is_sb s 0 /\ Forall (is_sb s) (p_scopeStack s) /\ TM2 (p_tree s) g /\ PEND s g /\ tySw s g /\ NFt (p_tree s).
+Definition LI (X : N -> Prop) (s : pstate) (g : ghost) : Prop :=
+  glive g 0 /\ groot g 0 /\ is_sb s 0 /\ Forall (is_sb s) (p_scopeStack s) /\ TM2 (p_tree s) g /\ PEND s g /\ tySw X s g /\ FN (p_tree s) /\
+  (forall n, X n -> glive g n).
 
 (** ---- table facts ---- *)
 Lemma namepath_plain (o : Obj) : o_opcode o = aml_pOpIntNamePath -> rowis aml_pOpIntNamePath o -> plain o.
@@ -114,14 +115,14 @@ Qed.
 Lemma groot_gext2 g g' x : gext g g' -> glive g x -> groot g x -> groot g' x.
 Proof. intros G Hl Hr p Hin. apply (Hr p). apply (ge_old _ _ G p x Hin Hl). Qed.
 
-Lemma LI_next_holds s g top rest s' g' :
-  FI s g -> LI s g -> p_scopeStack s = top :: rest -> FI s' g' -> gext g g' ->
+Lemma LI_next_holds X s g top rest s' g' :
+  FI s g -> LI X s g -> p_scopeStack s = top :: rest -> FI s' g' -> gext g g' ->
   Fw NoP (eq top) s g s' g' -> SSBx s s' -> p_handle s' = p_handle s ->
-  (exists xs, newobjs g s' xs /\ forall x, xs = Some x -> ~ glive g x /\ xdesc s s' g' top x) ->
-  (NFt (p_tree s) -> NFt (p_tree s')) ->
-  LI s' g'.
+  (exists xs, newobjs g s' xs /\ forall x, xs = Some x -> ~ glive g x /\ xdesc s g s' g' top x) ->
+  (FN (p_tree s) -> FN (p_tree s')) ->
+  LI X s' g'.
 Proof.
-  intros H (H0 & Hr0 & Hsb0 & Hssb & HTM & HP & HtS & HNF) Est H' G [K Fk0] Hss Hh (xs & Hnew & Hx) Hnf.
+  intros H (H0 & Hr0 & Hsb0 & Hssb & HTM & HP & HtS & HNF & HXs) Est H' G [K Fk0] Hss Hh (xs & Hnew & Hx) Hnf.
   pose proof (fi_R _ _ H) as HR. pose proof (R_gwf _ _ HR) as Hwf. pose proof (fi_R _ _ H') as HR'.
   assert (Htop_sb : is_sb s top) by (rewrite Est in Hssb; inversion Hssb; auto).
   assert (Hscl : forall y, In y (p_scopeStack s) -> glive g y) by (pose proof (fi_scopes _ _ H) as F; rewrite Forall_forall in F; exact F).
@@ -147,10 +148,10 @@ Proof.
       exists a0, a1, rest0, a0o', a1o', v. split; [rewrite (Hkeepk m mo Hlm Hm); [exact K1|rewrite Hop; discriminate]|].
       split; [exact K2'|]. split; [eapply plain_same; eauto|]. split; [exact K4'|]. split; [rewrite V1; [exact K5|intros []]|eapply plain_same; eauto].
     - destruct (Hnew m mo' Hm' Hlm' Hnm) as [E|(Hb & _)]; [|exfalso; apply Hb; left; exact Hop'].
-      destruct (Hx m E) as (_ & xo & Hxo & _ & Hrow & _ & Hshape). assert (xo = mo') by congruence. subst xo.
+      destruct (Hx m E) as (_ & xo & Hxo & _ & Hrow & _ & _ & Hshape). assert (xo = mo') by congruence. subst xo.
       destruct method_row as (Hmi & Hmrow & _). destruct method_shape as (Hsim & Hot).
       unfold rowis in Hrow. rewrite Hop', Hmi in Hrow. injection Hrow as Hrow.
-      destruct (Hshape (or_introl Hop') aml_pOpMethod 33 methodAF) as (objs & Hk & Hf2); [rewrite <- Hrow; exact Hmrow|exact Hsim|vm_compute; reflexivity|].
+      destruct (Hshape (or_introl Hop') aml_pOpMethod 33 methodAF) as (objs & Hk & Hf2 & _); [rewrite <- Hrow; exact Hmrow|exact Hsim|vm_compute; reflexivity|].
       rewrite Hot in Hf2. destruct (Forall2_inv2 _ _ _ _ _ Hf2) as (a0 & a1 & l1' & Eobjs & A0 & A1 & _). rewrite Eobjs in Hk.
       destruct A0 as (a0o & Ha0 & N0 & _). destruct (N0 eq_refl) as (_ & Eop0 & Er0 & _).
       destruct A1 as (a1o & Ha1 & _ & B1 & _). destruct (B1 eq_refl) as (_ & Eop1 & Er1 & v & Ev1).
@@ -166,15 +167,15 @@ Proof.
     - assert (Hlo' : o_opcode o' <> opFreed).
       { destruct (R_live_glive _ _ HR' x) as (_ & Hlv). destruct (Hlv Hlx') as (o2 & Ho2 & Hl2). assert (o2 = o') by congruence. subst. exact Hl2. }
       destruct (Hnew x o' Ho' Hlo' Hnx) as [E|(_ & Hb)]; [|contradiction].
-      destruct (Hx x E) as (_ & xo & Hxo & Hin & Hrow & _ & _). assert (xo = o') by congruence. subst xo.
+      destruct (Hx x E) as (_ & xo & Hxo & Hin & Hrow & _ & _ & _). assert (xo = o') by congruence. subst xo.
       split; [exists top; exact Hin|]. intros Hop. apply (npc_row_nodefer o' Hop Hrow Hd'). }
-  split; [|apply Hnf; exact HNF].
+  split; [|split; [apply Hnf; exact HNF|intros n Hn; apply (ge_live _ _ G); apply HXs; exact Hn]].
   (* the Scope directives *)
   intros x xo' Hx' Hop' Hhx'. assert (Hlx' : o_opcode xo' <> opFreed) by (rewrite Hop'; discriminate).
   destruct (glive_dec g x) as [Hlx|Hnx].
   - destruct (keepw_back NoP s g s' x xo' H K Hlx Hx') as (xo & Hxo & (E1 & E2 & E3) & Enm & _).
     assert (Hop : o_opcode xo = aml_pOpScope) by congruence. assert (Hhx : o_tableHandle xo = p_handle s) by congruence.
-    destruct (HtS x xo Hxo Hop Hhx) as (Hnl & Hnn & n & c & no & co & tbl & sl & K1 & K2 & K3 & K4 & K6 & K8 & K9).
+    destruct (HtS x xo Hxo Hop Hhx) as (Hnl & Hnn & n & c & no & co & tbl & sl & K1 & K2 & KX & K3 & K4 & K6 & K8 & K9).
     split; [rewrite Enm; exact Hnl|].
     assert (K4' : o_opcode no <> aml_pOpIntScopeBlock) by (rewrite K4; discriminate).
     assert (Hln : glive g n) by (apply (Hwf x n); rewrite K1; left; reflexivity).
@@ -183,33 +184,34 @@ Proof.
     destruct (keepw_sameobj NoP s g s' c co K Hlc K8) as (co' & K8' & (G1 & _) & _).
     split; [rewrite E2; exact Hnn|]. exists n, c, no', co', tbl, sl.
     split; [rewrite (Hkeepk x xo Hlx Hxo); [exact K1|rewrite Hop; discriminate]|].
-    split; [rewrite (Hkeepk n no Hln K3 K4'); exact K2|]. split; [exact K3'|]. split; [congruence|].
+    split; [rewrite (Hkeepk n no Hln K3 K4'); exact K2|]. split; [exact KX|]. split; [exact K3'|]. split; [congruence|].
     split; [rewrite V; [exact K6|intros []]|]. split; [exact K8'|congruence].
   - destruct (Hnew x xo' Hx' Hlx' Hnx) as [E|(Hb & _)]; [|exfalso; apply Hb; right; exact Hop'].
-    destruct (Hx x E) as (_ & xo & Hxo & _ & Hrow & Hname & Hshape). assert (xo = xo') by congruence. subst xo.
+    destruct (Hx x E) as (_ & xo & Hxo & _ & Hrow & Hname & Hnameo & Hshape). assert (xo = xo') by congruence. subst xo.
     split.
-    { assert (En : tget (p_tree s) x = None).
-      { destruct (tget (p_tree s) x) as [o0|] eqn:E0; [exfalso|reflexivity].
-        apply Hnx. apply (R_live_glive _ _ HR). exists o0. split; [exact E0|apply (HNF x o0 E0)]. }
-      rewrite (Hname En). reflexivity. }
+    { destruct (tget (p_tree s) x) as [o0|] eqn:E0; [|rewrite (Hname eq_refl); reflexivity].
+      rewrite (Hnameo o0 eq_refl). apply (HNF x o0 E0).
+      destruct (N.eq_dec (o_opcode o0) opFreed) as [Ef|Ef]; [exact Ef|exfalso].
+      apply Hnx. apply (R_live_glive _ _ HR). exists o0. split; [exact E0|exact Ef]. }
     destruct scope_row as (Hsi & Hsrow & Hsd & Hsn & Hsim & Hot).
     unfold rowis in Hrow. rewrite Hop', Hsi in Hrow. injection Hrow as Hrow.
     split; [intros op fl af E0; rewrite <- Hrow, Hsrow in E0; injection E0 as _ <- _; exact Hsn|].
-    destruct (Hshape (or_intror Hop') aml_pOpScope scopeFl scopeAF) as (objs & Hk & Hf2); [rewrite <- Hrow; exact Hsrow|exact Hsim|exact Hsd|].
+    destruct (Hshape (or_intror Hop') aml_pOpScope scopeFl scopeAF) as (objs & Hk & Hf2 & Hn2); [rewrite <- Hrow; exact Hsrow|exact Hsim|exact Hsd|].
     rewrite Hot in Hf2. destruct (Forall2_inv2 _ _ _ _ _ Hf2) as (n & c & l1' & Eobjs & A0 & A1 & F1). inversion F1; subst l1'. rewrite Eobjs in Hk.
+    assert (HnX : ~ X n) by (rewrite Eobjs in Hn2; inversion Hn2 as [|? ? Hq _]; subst; intros Hq'; apply Hq; apply HXs; exact Hq').
     destruct A0 as (no & Hn & N0 & _). destruct (N0 eq_refl) as (Kn & Eop0 & _ & tbl & sl & Ev0).
     destruct A1 as (co & Hc & _ & _ & C1). destruct (C1 eq_refl) as (_ & Eop1).
-    exists n, c, no, co, tbl, sl. split; [exact Hk|]. split; [exact Kn|]. split; [exact Hn|].
+    exists n, c, no, co, tbl, sl. split; [exact Hk|]. split; [exact Kn|]. split; [exact HnX|]. split; [exact Hn|].
     split; [exact Eop0|]. split; [exact Ev0|]. split; [exact Hc|exact Eop1].
 Qed.
 
-Lemma LI_stable_holds s s' g : LI s g -> p_tree s' = p_tree s -> p_handle s' = p_handle s ->
-  (forall y, In y (p_scopeStack s') -> In y (p_scopeStack s)) -> LI s' g.
+Lemma LI_stable_holds X s s' g : LI X s g -> p_tree s' = p_tree s -> p_handle s' = p_handle s ->
+  (forall y, In y (p_scopeStack s') -> In y (p_scopeStack s)) -> LI X s' g.
 Proof.
-  intros (H0 & Hr0 & Hsb0 & Hssb & HTM & HP & HtS & HNF) Et Eh Hst.
+  intros (H0 & Hr0 & Hsb0 & Hssb & HTM & HP & HtS & HNF & HXs) Et Eh Hst.
   split; [exact H0|]. split; [exact Hr0|]. split; [unfold is_sb in *; rewrite Et; exact Hsb0|].
   split; [rewrite Forall_forall in *; intros y Hy; unfold is_sb; rewrite Et; apply Hssb; apply Hst; exact Hy|].
-  split; [rewrite Et; exact HTM|]. split; [|split; [|rewrite Et; exact HNF]].
+  split; [rewrite Et; exact HTM|]. split; [|split; [|split; [rewrite Et; exact HNF|exact HXs]]].
   - intros x o Hl Ho Hf. rewrite Et in Ho. apply (HP x o Hl Ho). unfold isflag in *. rewrite Et, Eh in Hf. exact Hf.
   - intros x xo Hx Hop Hh. rewrite Et in Hx. rewrite Eh in Hh. rewrite Et. apply (HtS x xo Hx Hop Hh).
 Qed.
@@ -218,12 +220,12 @@ Qed.
 Theorem first_pass_establishes : forall tree g earlier handle data fuel,
   R tree g -> info_valid tree -> glive g 0 -> groot g 0 ->
   (exists o, tget tree 0 = Some o /\ o_opcode o = aml_pOpIntScopeBlock) ->
-  TM2 tree g -> NFt tree -> (forall i o, tget tree i = Some o -> o_tableHandle o <> handle) ->
+  TM2 tree g -> FN tree -> (forall i o, tget tree i = Some o -> o_tableHandle o <> handle) ->
   image_small data ->
   N.of_nat (length (t_pool tree)) + 4 * N.of_nat (length data) + 4 <= InvalidIndex ->
   match first_pass fuel (init_state tree earlier handle data) with
   | Ok (res, s') => exists g', R (p_tree s') g' /\ info_valid (p_tree s') /\ rok (p_r s') /\ (res = ROk \/ res = RFailed) /\
-      (res = ROk -> LI s' g' /\ p_scopeStack s' = [])
+      (res = ROk -> LI (glive g) s' g' /\ p_scopeStack s' = [])
   | Panic => False
   | OutOfFuel => True
   end.
@@ -231,13 +233,13 @@ Proof.
   intros tree g earlier handle data fuel HR Hi H0 Hr0 Hsb HTM HNF Hfresh Him Hcap.
   destruct (init_FI tree g earlier handle data HR Hi H0 Him Hcap) as (HFI & Hroom & _).
   set (s0 := with_scopeStack (init_state tree earlier handle data) [0]) in *.
-  assert (HL0 : LI s0 g).
+  assert (HL0 : LI (glive g) s0 g).
   { split; [exact H0|]. split; [exact Hr0|]. split; [exact Hsb|]. split; [constructor; [exact Hsb|constructor]|]. split; [exact HTM|]. split.
     - intros x o _ Ho Hf. exfalso. change (p_tree s0) with tree in Ho. unfold isflag in Hf. change (p_tree s0) with tree in Hf. rewrite Ho in Hf.
       destruct (opInfo (o_infoIndex o)) as [[[op fl] af]|]; [|discriminate]. apply andb_prop in Hf. destruct Hf as (_ & Hf).
       apply N.eqb_eq in Hf. apply (Hfresh x o Ho). exact Hf.
-    - split; [|exact HNF]. intros x xo Hx _ Hh. exfalso. apply (Hfresh x xo Hx). exact Hh. }
-  pose proof (list_spec2 LI LI_next_holds LI_stable_holds fuel s0 g HFI Hroom HL0) as W. unfold wp in W.
+    - split; [|split; [exact HNF|auto]]. intros x xo Hx _ Hh. exfalso. apply (Hfresh x xo Hx). exact Hh. }
+  pose proof (list_spec2 (LI (glive g)) FN parseNextObject_FN (LI_next_holds (glive g)) (LI_stable_holds (glive g)) fuel s0 g HFI Hroom HL0) as W. unfold wp in W.
   unfold first_pass, bindM, scopeEnter.
   change (with_scopeStack (init_state tree earlier handle data) (0 :: p_scopeStack (init_state tree earlier handle data))) with s0.
   destruct (parseObjectList fuel s0) as [[res s']| |]; auto.
@@ -246,29 +248,29 @@ Proof.
 Qed.
 
 (** ---- the whole of ParseAML, modulo two facts about the names of the Scope directives of the first pass ---- *)
-Definition NAMEOK (s : pstate) : Prop :=
-  (forall n no tbl sl, tget (p_tree s) n = Some no -> o_opcode no = aml_pOpIntNamePath -> o_value no = Some (VBytes tbl sl) ->
+Definition NAMEOK (X : N -> Prop) (s : pstate) : Prop :=
+  (forall n no tbl sl, tget (p_tree s) n = Some no -> ~ X n -> o_opcode no = aml_pOpIntNamePath -> o_value no = Some (VBytes tbl sl) ->
      forall s0 bytes, p_tables s0 = p_tables s -> slice_bytes s0 tbl sl = Ok bytes -> good_path bytes).
 
-Lemma SH_of_LI s g : LI s g -> NAMEOK s -> SH s g.
+Lemma SH_of_LI X s g : LI X s g -> NAMEOK X s -> SH s g.
 Proof.
   intros (H0 & Hr0 & Hsb0 & _ & HTM & HP & HtS & _) N2.
   split; [exact H0|]. split; [exact Hr0|]. split; [exact Hsb0|]. split; [|split; [exact HTM|exact HP]].
-  intros x xo Hx Hop Hh _. destruct (HtS x xo Hx Hop Hh) as (Hnl & Hnn & n & c & no & co & tbl & sl & K1 & K2 & K3 & K4 & K6 & K8 & K9).
+  intros x xo Hx Hop Hh _. destruct (HtS x xo Hx Hop Hh) as (Hnl & Hnn & n & c & no & co & tbl & sl & K1 & K2 & KX & K3 & K4 & K6 & K8 & K9).
   split; [exact Hnl|]. split; [exact Hnn|]. exists n, c, no, co, tbl, sl.
   split; [exact K1|]. split; [exact K2|]. split; [exact K3|]. split; [rewrite K4; discriminate|]. split; [rewrite K4; discriminate|].
-  split; [exact K6|]. split; [apply (N2 n no tbl sl K3 K4 K6)|]. split; [exact K8|exact K9].
+  split; [exact K6|]. split; [apply (N2 n no tbl sl K3 KX K4 K6)|]. split; [exact K8|exact K9].
 Qed.
 
 Theorem parseAML_body_never_panics_if_names : forall tree g earlier handle data fuel,
   R tree g -> info_valid tree -> glive g 0 -> groot g 0 ->
   (exists o, tget tree 0 = Some o /\ o_opcode o = aml_pOpIntScopeBlock) ->
-  TM2 tree g -> NFt tree -> typed tree -> pool_ok earlier tree ->
+  TM2 tree g -> FN tree -> typed tree -> pool_ok earlier tree ->
   (forall i o, tget tree i = Some o -> o_tableHandle o <> handle) ->
   image_small data ->
   (let L := N.of_nat (length (t_pool tree)) + 4 * N.of_nat (length data) + 2 in
    L + L * (8 * N.of_nat (length data) + 3) + 4 <= InvalidIndex) ->
-  (forall s1, first_pass fuel (init_state tree earlier handle data) = Ok (ROk, s1) -> NAMEOK s1) ->
+  (forall s1, first_pass fuel (init_state tree earlier handle data) = Ok (ROk, s1) -> NAMEOK (glive g) s1) ->
   match parseAML_body fuel (init_state tree earlier handle data) with
   | Ok (_, s') => exists g', R (p_tree s') g' /\ info_valid (p_tree s') /\ pool_ok (p_tables s') (p_tree s')
   | Panic => False
@@ -283,7 +285,7 @@ Proof.
   assert (Hinv0 : Inv (earlier ++ [data]) s0).
   { destruct Him as (Hb & Hl). assert (Him' : image_ok data) by (split; [exact Hb|unfold two32 in *; lia]).
     destruct (init_state_Inv tree earlier handle data Him' Hpool) as [A1 A2 A3 A4 A5]. constructor; auto. }
-  pose proof (list_spec2 LI LI_next_holds LI_stable_holds fuel s0 g HFI Hroom) as W2.
+  pose proof (list_spec2 (LI (glive g)) FN parseNextObject_FN (LI_next_holds (glive g)) (LI_stable_holds (glive g)) fuel s0 g HFI Hroom) as W2.
   rewrite parseAML_body_rest2. unfold first_pass in W1, Hnames. unfold bindM, scopeEnter in *.
   change (with_scopeStack (init_state tree earlier handle data) (0 :: p_scopeStack (init_state tree earlier handle data))) with s0 in *.
   destruct (parseObjectList fuel s0) as [[r1 s1]| |] eqn:E1; auto.
@@ -294,16 +296,16 @@ Proof.
   destruct (HLI eq_refl) as (HL1 & Hst1).
   destruct (hoare_parseObjectList (earlier ++ [data]) fuel s0 _ s1 Hinv0 E1) as (I1 & _).
   assert (Ht1 : typed (p_tree s1)) by (apply (parseObjectList_tyk fuel s0 _ s1 E1); exact Htyp).
-  assert (HLI0 : LI s0 g).
+  assert (HLI0 : LI (glive g) s0 g).
   { split; [exact H0|]. split; [exact Hr0|]. split; [exact Hsb|]. split; [constructor; [exact Hsb|constructor]|]. split; [exact HTM|]. split.
     - intros x o _ Ho Hf. exfalso. change (p_tree s0) with tree in Ho. unfold isflag in Hf. change (p_tree s0) with tree in Hf. rewrite Ho in Hf.
       destruct (opInfo (o_infoIndex o)) as [[[op fl] af]|]; [|discriminate]. apply andb_prop in Hf. destruct Hf as (_ & Hf).
       apply N.eqb_eq in Hf. apply (Hfresh x o Ho). exact Hf.
-    - split; [|exact HNF]. intros x xo Hx _ Hh. exfalso. apply (Hfresh x xo Hx). exact Hh. }
+    - split; [|split; [exact HNF|auto]]. intros x xo Hx _ Hh. exfalso. apply (Hfresh x xo Hx). exact Hh. }
   assert (El0 : r_len (p_r s0) = N.of_nat (length data)).
   { unfold s0, init_state. cbn [p_r with_scopeStack with_r]. rewrite (proj2 (setPkgEnd_off _ _)). rewrite init_reader_val. reflexivity. }
   specialize (W2 HLI0). unfold wp in W2. rewrite E1 in W2. destruct W2 as (g1' & F1 & _ & HPhi & Hlen & _ & _).
-  apply (rest2_never_panics (earlier ++ [data]) fuel s1 g1 A1 A2 A3 Hst1 I1); [apply SH_of_LI; [exact HL1|apply Hnames; reflexivity]|exact Ht1|].
+  apply (rest2_never_panics (earlier ++ [data]) fuel s1 g1 A1 A2 A3 Hst1 I1); [apply (SH_of_LI (glive g)); [exact HL1|apply Hnames; reflexivity]|exact Ht1|].
   assert (Hlp : lp s1 <= N.of_nat (length (t_pool tree)) + 4 * N.of_nat (length data) + 2).
   { unfold Phi, lp, rem in HPhi. pose proof (fi_rok _ _ F1) as (_ & _ & O1). change (p_tree s0) with tree in HPhi.
     unfold lp. rewrite Hlen, El0 in *. lia. }
@@ -316,7 +318,7 @@ Qed.
 Theorem parseAML_body_never_panics : forall tree g earlier handle data fuel,
   R tree g -> info_valid tree -> glive g 0 -> groot g 0 ->
   (exists o, tget tree 0 = Some o /\ o_opcode o = aml_pOpIntScopeBlock) ->
-  TM2 tree g -> NFt tree -> typed tree -> GPt (earlier ++ [data]) tree -> pool_ok earlier tree ->
+  TM2 tree g -> FN tree -> typed tree -> pool_ok earlier tree ->
   (forall i o, tget tree i = Some o -> o_tableHandle o <> handle) ->
   image_small data ->
   (let L := N.of_nat (length (t_pool tree)) + 4 * N.of_nat (length data) + 2 in
@@ -327,7 +329,9 @@ Theorem parseAML_body_never_panics : forall tree g earlier handle data fuel,
   | OutOfFuel => True
   end.
 Proof.
-  intros tree g earlier handle data fuel HR Hi H0 Hr0 Hsb HTM HNF Htyp HGP Hpool Hfresh Him Hcap.
+  intros tree g earlier handle data fuel HR Hi H0 Hr0 Hsb HTM HNF Htyp Hpool Hfresh Him Hcap.
+  assert (HGP : GPt (earlier ++ [data]) (glive g) tree).
+  { intros n no tbl sl Hn HX Hop _. exfalso. apply HX. apply (R_live_glive _ _ HR). exists no. split; [exact Hn|rewrite Hop; discriminate]. }
   apply (parseAML_body_never_panics_if_names tree g earlier handle data fuel HR Hi H0 Hr0 Hsb HTM HNF Htyp Hpool Hfresh Him Hcap).
   intros s1 E1. cbv zeta in Hcap.
   assert (Hcap0 : N.of_nat (length (t_pool tree)) + 4 * N.of_nat (length data) + 4 <= InvalidIndex) by nia.
@@ -335,15 +339,15 @@ Proof.
   assert (Hw : W (earlier ++ [data]) data (init_state tree earlier handle data)).
   { split; [reflexivity|]. split; [|exact (fi_rok _ _ HFI)].
     unfold init_state. cbn [p_r with_r]. rewrite setPkgEnd_data, init_reader_val. reflexivity. }
-  destruct (first_pass_good (earlier ++ [data]) data (last_table earlier data) fuel _ _ _ Hw HGP E1) as (Ht1 & Hg1).
-  intros n no tbl sl Hn Hop Hv s0 bytes Hs0 Hb. apply (Hg1 n no tbl sl Hn Hop Hv s0 bytes); [rewrite Hs0; exact Ht1|exact Hb].
+  destruct (first_pass_good (earlier ++ [data]) data (glive g) (last_table earlier data) fuel _ _ _ Hw HGP E1) as (Ht1 & Hg1).
+  intros n no tbl sl Hn HX Hop Hv s0 bytes Hs0 Hb. apply (Hg1 n no tbl sl Hn HX Hop Hv s0 bytes); [rewrite Hs0; exact Ht1|exact Hb].
 Qed.
 
 (** ParseAML itself (the fuel the model passes is [parse_fuel]) *)
 Theorem parseAML_never_panics : forall tree g earlier handle data,
   R tree g -> info_valid tree -> glive g 0 -> groot g 0 ->
   (exists o, tget tree 0 = Some o /\ o_opcode o = aml_pOpIntScopeBlock) ->
-  TM2 tree g -> NFt tree -> typed tree -> GPt (earlier ++ [data]) tree -> pool_ok earlier tree ->
+  TM2 tree g -> FN tree -> typed tree -> pool_ok earlier tree ->
   (forall i o, tget tree i = Some o -> o_tableHandle o <> handle) ->
   image_small data ->
   (let L := N.of_nat (length (t_pool tree)) + 4 * N.of_nat (length data) + 2 in
@@ -377,7 +381,7 @@ Lemma parseAML_hyps_example :
   exists (tree : T) (g : ghost) (data : list N),
     R tree g /\ info_valid tree /\ glive g 0 /\ groot g 0 /\
     (exists o, tget tree 0 = Some o /\ o_opcode o = aml_pOpIntScopeBlock) /\
-    TM2 tree g /\ NFt tree /\ typed tree /\ GPt ([] ++ [data]) tree /\ pool_ok [] tree /\
+    TM2 tree g /\ FN tree /\ typed tree /\ pool_ok [] tree /\
     (forall i o, tget tree i = Some o -> o_tableHandle o <> 1) /\
     image_small data /\
     (let L := N.of_nat (length (t_pool tree)) + 4 * N.of_nat (length data) + 2 in
@@ -393,11 +397,9 @@ Proof.
   split; [apply groot_chk; vm_compute; reflexivity|].
   split; [eexists; split; vm_compute; reflexivity|].
   split; [unfold TM2; apply (Hall (fun m mo => o_opcode mo = aml_pOpMethod -> mtyped2 ex1_tree ex1_ghost m)); intros o Ho Hop; vm_compute in Ho; inversion Ho; subst o; vm_compute in Hop; discriminate|].
-  split; [unfold NFt; apply (Hall (fun i o => o_opcode o <> opFreed)); intros o Ho; vm_compute in Ho; inversion Ho; subst o; vm_compute; discriminate|].
+  split; [unfold FN; apply (Hall (fun i o => o_opcode o = opFreed -> name_lead (o_name o) = false)); intros o Ho Hop; vm_compute in Ho; inversion Ho; subst o; vm_compute in Hop; discriminate|].
   split; [unfold typed; apply (Hall (fun i o => o_opcode o <> opFreed -> o_opcode o = aml_pOpIntNamePathOrMethodCall -> exists tbl sl, o_value o = Some (VBytes tbl sl)));
           intros o Ho _ Hop; vm_compute in Ho; inversion Ho; subst o; vm_compute in Hop; discriminate|].
-  split; [unfold GPt; intros n no tbl sl Hn; revert tbl sl; revert n no Hn; apply (Hall (fun n no => forall tbl sl, o_opcode no = aml_pOpIntNamePath -> o_value no = Some (VBytes tbl sl) -> goodv ([] ++ [ex1_image]) tbl sl));
-          intros o Ho tbl sl Hop; vm_compute in Ho; inversion Ho; subst o; vm_compute in Hop; discriminate|].
   split; [unfold pool_ok; rewrite Forall_forall; intros o Hin; destruct (In_nth_error _ _ Hin) as (n & Hn);
           destruct n as [|n]; [vm_compute in Hn; inversion Hn; subst o; exact I|vm_compute in Hn; destruct n; discriminate]|].
   split; [apply (Hall (fun i o => o_tableHandle o <> 1)); intros o Ho; vm_compute in Ho; inversion Ho; subst o; vm_compute; discriminate|].
